@@ -165,7 +165,9 @@ where
     ) -> Result<(), VmError<E>> {
         use StackDirective::*;
 
-        self.stack.add_child(&local_name);
+        self.stack
+            .add_child(&local_name)
+            .map_err(VmError::MemoryLimitExceeded)?;
 
         let mut ctx = ExecutionCtx::new(local_name, ns, self.enable_esi_tags);
 
